@@ -146,4 +146,15 @@ def bspline (eps : α) (N kk : Nat) (interval : α) (extrapolate : Bool) (P : Na
   else if N < 4 then none
   else some (bsplineCore eps N kk interval P)
 
+/-! ## the public entry points with the grid size the code computes itself -/
+
+/-- `chspline(points, interval)` for `interval = num/den`: the number of grid values per unit step is `floatLen num den`
+(`len(torch.arange(0, 1, interval))`) -/
+def chsplineAuto (N num den : Nat) (interval : α) (p : Nat → α) : List α :=
+  chspline N (floatLen num den) interval p
+
+/-- `bspline(data, interval, extrapolate)` for `interval = num/den` -/
+def bsplineAuto (eps : α) (N num den : Nat) (interval : α) (extrapolate : Bool) (P : Nat → SE3 α) : Option (List (SE3 α)) :=
+  bspline eps N (floatLen num den) interval extrapolate P
+
 end PP.Spline
